@@ -97,6 +97,19 @@ func TestReplay(t *testing.T) {
 		probeEvalCmd(t, c)
 	case "hookfilter":
 		probeHookFilter(t, c)
+	case "roleflip":
+		var d struct {
+			Case flipCase `json:"case"`
+		}
+		if err := json.Unmarshal(doc.Data, &d); err != nil || d.Case.Clients == 0 {
+			t.Fatalf("bad replay data: %v", err)
+		}
+		srv := mustStart(t, t38.Opts{})
+		defer srv.StopAsync()
+		for i := 0; i < 5; i++ {
+			c.Case()
+			runFlipCase(t, c, srv, d.Case)
+		}
 	case "poolacct":
 		runPoolAccounting(t, c, 210)
 	case "mutated":
